@@ -167,6 +167,9 @@ func runC11(t *testing.T, planAny any, res *simnet.Result) {
 			bi := p.SlotBk[i] % len(p.Backends)
 			b := p.Backends[bi]
 			s := slots[i]
+			// sessions never start at the same instant modulo the 1 s repeat of the initial message: two sessions whose
+			// timers fire together draw their sequence numbers in an order the simulator does not decide
+			time.Sleep(time.Duration(37*(i+1))*time.Microsecond + time.Duration(w.Now()%time.Millisecond)/7)
 			if s == nil {
 				mods := []func(*netceptor.BackendInfo){}
 				if b.HasAllow {
